@@ -258,3 +258,67 @@ NP_STUBS: Dict[str, Any] = {
     "inf": math.inf, "nan": math.nan, "bool_": bool, "float64": float, "complex128": complex, "int64": int,
     "ComplexImpedance": complex, "Frequency": float,
 }
+
+
+class Mat:
+    """A small two-dimensional array stand-in: rows × columns of entries, indexed by (rows, column) or (rows, columns)
+    with ints, slices and slice objects; remembers which cells were written."""
+
+    def __init__(self, m: int, n: int, fill: Any = 0):
+        self.m, self.n = m, n
+        self.cells = [[fill for _ in range(n)] for _ in range(m)]
+        self.written: set = set()
+
+    @property
+    def shape(self):
+        return (self.m, self.n)
+
+    def _rows(self, k):
+        if isinstance(k, slice):
+            return list(range(self.m))[k]
+        if isinstance(k, int) and not isinstance(k, bool):
+            if not -self.m <= k < self.m:
+                raise IndexError(f"index {k} is out of bounds for axis 0 with size {self.m}")
+            return [k % self.m]
+        raise TypeError("unsupported row index")
+
+    def _cols(self, k):
+        if isinstance(k, slice):
+            return list(range(self.n))[k]
+        if isinstance(k, int) and not isinstance(k, bool):
+            if not -self.n <= k < self.n:
+                raise IndexError(f"index {k} is out of bounds for axis 1 with size {self.n}")
+            return [k % self.n]
+        raise TypeError("unsupported column index")
+
+    def __getitem__(self, key):
+        if not (isinstance(key, tuple) and len(key) == 2):
+            raise TypeError("only A[rows, columns] is modelled")
+        rows, cols = self._rows(key[0]), self._cols(key[1])
+        if isinstance(key[1], int):
+            return NArr(self.cells[r][cols[0]] for r in rows) if not isinstance(key[0], int) else self.cells[rows[0]][cols[0]]
+        if isinstance(key[0], int):
+            return NArr(self.cells[rows[0]][c] for c in cols)
+        raise TypeError("two-dimensional blocks are not modelled")
+
+    def __setitem__(self, key, value):
+        if not (isinstance(key, tuple) and len(key) == 2):
+            raise TypeError("only A[rows, columns] = … is modelled")
+        rows, cols = self._rows(key[0]), self._cols(key[1])
+        if len(cols) == 1:
+            vals = list(value) if isinstance(value, (NArr, list, tuple)) else [value] * len(rows)
+            if len(vals) != len(rows):
+                raise ValueError(f"could not broadcast input array from shape ({len(vals)},) into shape ({len(rows)},)")
+            for r, v in zip(rows, vals):
+                self.cells[r][cols[0]] = v
+                self.written.add((r, cols[0]))
+            return
+        if len(rows) == 1:
+            vals = list(value) if isinstance(value, (NArr, list, tuple)) else [value] * len(cols)
+            if len(vals) != len(cols):
+                raise ValueError("could not broadcast")
+            for c, v in zip(cols, vals):
+                self.cells[rows[0]][c] = v
+                self.written.add((rows[0], c))
+            return
+        raise TypeError("two-dimensional block stores are not modelled")
